@@ -147,6 +147,7 @@ def _helper_ok(g: FunctionInfo) -> bool:
 def _free_names_agree(prog: Program, g: FunctionInfo, f: FunctionInfo, local: Set[str]) -> bool:
     if g.module is f.module:
         return True
+    pending: Dict[str, str] = {}
     body_nodes = []
     for st in g.node.body:
         # names that occur only in annotations do not matter for the analysis
@@ -167,7 +168,13 @@ def _free_names_agree(prog: Program, g: FunctionInfo, f: FunctionInfo, local: Se
             # a module-level object of the helper's module that the caller imports under the same name
             if a is None and b == f"{g.module.name}.{n.id}":
                 continue
+            # a name the caller's module does not know at all: make it known there (model only) under the helper's meaning
+            unknown_there = b is None and n.id not in f.module.functions and n.id not in f.module.classes and n.id not in f.module.assigns
+            if unknown_there and (a is not None or n.id in g.module.functions or n.id in g.module.classes or n.id in g.module.assigns):
+                pending[n.id] = a if a is not None else f"{g.module.name}.{n.id}"
+                continue
             return False
+    f.module.imports.update(pending)
     return True
 
 
